@@ -16,6 +16,11 @@ func NewAccesControl(allowedList []string) *AccessControl {
 	}
 }
 
+// IsRestricted reports whether the list restricts anything (an empty list allows every name).
+func (a *AccessControl) IsRestricted() bool {
+	return len(a.allowedMap) > 0
+}
+
 func (a *AccessControl) IsAllowed(name string) bool {
 	if len(a.allowedMap) == 0 {
 		return true
